@@ -4,7 +4,7 @@ meaning of +=) checked exhaustively on the spec functions.  Labelled bounded; ne
 import itertools, random
 from bounded.util import chunked, pmap
 
-ALPHA = ['-Ia', '-Ib', '-Dx', '-lfoo', 'x.c', '-pthread', '-L/q', '/abs/libz.a']
+ALPHA = ['-Ia', '-Dx', '-lfoo', 'x.c', '/abs/libz.a', '-Ib', '-pthread', '-L/q']
 
 
 def _cls():
